@@ -112,7 +112,7 @@ def r2(cx):
              kept_rows=[dict(c) for c in kept_older_put[:4]])
 
 
-@rule("C10", "C10.R3", "point-in-time read: all versions enumerated, candidate <=> visible, ts <= T, newest so far")
+@rule("C10", "C10.R3", "point-in-time read: all versions enumerated, candidate <=> visible, ts <= T, strictly newer than the candidate so far")
 def r3(cx):
     f = cx.f
     b = f.body("Snapshot::get_at")
@@ -144,10 +144,21 @@ def r3(cx):
             cx.check(cond == frozenset({"lt", "eq"}), "a version is a candidate only if its timestamp <= T", "get_at-ts-predicate", cmp_.where(),
                      "get_at accepts versions with timestamp %s T" % (rel_str(cond) if cond is not None else "<unconstrained>"))
             roles["T"] = True
-        elif lt and not is_T(ro) and (not rt or ro.consts):
-            cond = cmp_.condition_to_reach(tg[0])
-            cx.check(cond == frozenset({"gt", "eq"}), "...and is at least as new as the best candidate so far", "get_at-best-predicate", cmp_.where(),
-                     "get_at replaces its candidate when the version's timestamp %s best" % (rel_str(cond) if cond is not None else "<unconstrained>"))
+        elif lt and not is_T(ro) and (rt or ro.consts):
+            # The cursor lists versions newest first (timestamp descending, then commit order descending): among versions
+            # with EQUAL timestamps the first one met is the one committed last.  A later candidate may therefore replace
+            # the current one only if it is strictly newer; replacing on equality hands back the overwritten version
+            # (`set k@10; soft-delete k@10` reads the deleted value at T = 10).
+            # (corrected: this check used to demand `>=`, copied from the code -- see DESIGN D43)
+            via = set()
+            for sw, e in cmp_.switches():
+                for succ, lab in e.items():
+                    if tg[0] in b.reachable_from([succ], avoid={sw}) or succ == tg[0]:
+                        via |= set(lab)
+            cond = frozenset(via)
+            cx.check(cond == frozenset({"gt"}), "...and is strictly newer than the best candidate so far (ties keep the version met first = committed last)", "get_at-best-predicate", cmp_.where(),
+                     "get_at replaces its candidate when the version's timestamp %s best: the cursor lists equal timestamps in descending commit order, so on a tie the version "
+                     "committed FIRST wins -- `set k@10; soft-delete k@10` reads the deleted value back at T = 10, and get_at(k, now) disagrees with get(k)" % (rel_str(cond) if cond else "<unconstrained>"))
             roles["best"] = True
     cx.check(roles.get("T") and roles.get("best"), "both selection comparisons are present", "get_at-predicates-missing", b.where())
     # user key equality stops the scan
